@@ -56,7 +56,7 @@ Section CbcNProofs.
   Qed.
 
   Lemma cbcn_encrypt_spec_len : forall n iv pt, length (cbcn_encrypt_spec bs E n iv pt) = bs * n.
-  Proof. induction n; intros; cbn [cbcn_encrypt_spec]; [lia|]. rewrite app_length, Elen, IHn. lia. Qed.
+  Proof. induction n; intros; cbn [cbcn_encrypt_spec]; [rewrite Nat.mul_0_r; reflexivity|]. rewrite app_length, Elen, IHn. lia. Qed.
   Lemma cbcn_enc_iv_len : forall n iv pt, length iv = bs -> length (cbcn_enc_iv n iv pt) = bs.
   Proof. induction n; intros; cbn [cbcn_enc_iv]; [assumption|]. apply IHn. apply Elen. Qed.
   Lemma cbcn_dec_iv_len : forall n iv ct, length iv = bs -> bs * n <= length ct -> length (cbcn_dec_iv n iv ct) = bs.
